@@ -7,7 +7,14 @@ use serde_json::json;
 
 fn rt(a: &Arena<u32>) -> Result<Arena<u32>, String> {
     let s = serde_json::to_string(a).map_err(|e| e.to_string())?;
-    serde_json::from_str(&s).map_err(|e| e.to_string())
+    let c: Arena<u32> = serde_json::from_str(&s).map_err(|e| e.to_string())?;
+    // and through a format that is not self-describing (sequences with a length prefix, tuples and structs without, enums by index)
+    let bytes = crate::wire::to_bytes(a).map_err(|e| format!("binary format: {}", e))?;
+    let w: Arena<u32> = crate::wire::from_bytes(&bytes).map_err(|e| format!("binary format: deserialize fails: {}", e))?;
+    if w != *a {
+        return Err("binary format: deserialize(serialize(arena)) != arena".into());
+    }
+    Ok(c)
 }
 
 pub fn check_state<P: Payload + Clone + 'static>(st: &mut Stats, keep: usize, b: &Bundle, prefix: &Option<Vec<Call>>, sim: &Sim<P>) {
